@@ -577,4 +577,134 @@ theorem lru_checkpoint_crash_safe' (gens : List Nat) (gen prev : Nat) (bs : Byte
 
 end lru
 
+/-! ## calls (what the tracer sees) vs operations (what the crash theorems are about) -/
+
+theorem effOps_append (a b : List (Call N)) : effOps (a ++ b) = effOps a ++ effOps b := by
+  simp [effOps]
+
+theorem effOps_map_did (t : List (Op N)) : effOps (t.map Call.did) = t := by
+  induction t with
+  | nil => rfl
+  | cons o t ih => simp only [List.map_cons, effOps, List.flatMap_cons, Call.eff] at *; rw [ih]; rfl
+
+theorem attemptCalls_eff (tmp fin : N) (bs : Bytes) (a : Attempt) :
+    effOps (attemptCalls tmp fin bs a) =
+      (match a with
+       | .ok => atomicReplace tmp fin bs
+       | a => failedAttemptOps tmp bs a) := by
+  cases a with
+  | ok => simp only [attemptCalls, effOps_map_did]
+  | _ => simp [attemptCalls, failedAttemptOps, effOps, Call.eff]
+
+/-- the calls of `save_index`, failed ones dropped, are the operations `save_index_crash_safe` is
+about — for every fuel and every outcome list. -/
+theorem saveIndexCalls_eff (tmp fin : N) (bs : Bytes) : ∀ (fuel : Nat) (outs : List Attempt),
+    effOps (saveIndexCalls tmp fin bs fuel outs) = saveIndexOps tmp fin bs fuel outs := by
+  intro fuel
+  induction fuel with
+  | zero => intro outs; rfl
+  | succ f ih =>
+    intro outs
+    match outs with
+    | [] => simp [saveIndexCalls, saveIndexOps, attemptCalls, effOps_map_did]
+    | .ok :: _ => simp [saveIndexCalls, saveIndexOps, attemptCalls, effOps_map_did]
+    | .failCreate :: rest =>
+      simp only [saveIndexCalls, saveIndexOps, effOps_append, ih rest, attemptCalls_eff]
+      simp [effOps, Call.eff]
+    | .failWrite k :: rest =>
+      simp only [saveIndexCalls, saveIndexOps, effOps_append, ih rest, attemptCalls_eff]
+      simp [effOps, Call.eff]
+    | .failSync :: rest =>
+      simp only [saveIndexCalls, saveIndexOps, effOps_append, ih rest, attemptCalls_eff]
+      simp [effOps, Call.eff]
+    | .failRename :: rest =>
+      simp only [saveIndexCalls, saveIndexOps, effOps_append, ih rest, attemptCalls_eff]
+      simp [effOps, Call.eff]
+
+theorem saveAllCalls_eff (bs : List (BucketSave N)) : effOps (saveAllCalls bs) = saveAll bs := by
+  induction bs with
+  | nil => rfl
+  | cons b rest ih =>
+    simp only [saveAllCalls, saveAll, effOps_append, saveIndex, saveIndexCalls_eff]
+    split
+    · rw [ih]
+    · rfl
+
+/-- every `(i, k)` the driver and the harness enumerate over a CALL list is a crash prefix of the
+operations the calls perform. -/
+theorem cutAtCalls_is_cut' (cs : List (Call N)) (i k : Nat) : Cut (effOps cs) (cutAtCalls cs i k) := by
+  induction i generalizing cs with
+  | zero =>
+    unfold cutAtCalls
+    simp only [List.take_zero, List.drop_zero]
+    match cs with
+    | [] => exact Cut.stop _
+    | .did (.write n bs) :: rest =>
+      simp only [effOps, List.flatMap_nil, List.flatMap_cons, Call.eff, List.nil_append, List.cons_append]
+      split
+      · exact Cut.stop _
+      · exact Cut.tear _ _ _ _
+    | .did (.create _) :: _ => exact Cut.stop _
+    | .did (.openAppend _) :: _ => exact Cut.stop _
+    | .did (.fsync _) :: _ => exact Cut.stop _
+    | .did (.rename _ _) :: _ => exact Cut.stop _
+    | .did (.unlink _) :: _ => exact Cut.stop _
+    | .failed _ :: _ => exact Cut.stop _
+  | succ i ih =>
+    match cs with
+    | [] => exact Cut.stop _
+    | .did o :: rest =>
+      have : cutAtCalls (.did o :: rest) (i + 1) k = o :: cutAtCalls rest i k := by
+        unfold cutAtCalls; simp [effOps, Call.eff]
+      rw [this]
+      have h2 : effOps (.did o :: rest) = o :: effOps rest := by simp [effOps, Call.eff]
+      rw [h2]
+      exact Cut.next o (ih rest)
+    | .failed o :: rest =>
+      have : cutAtCalls (.failed o :: rest) (i + 1) k = cutAtCalls rest i k := by
+        unfold cutAtCalls; simp [effOps, Call.eff]
+      rw [this]
+      have h2 : effOps (.failed o :: rest) = effOps rest := by simp [effOps, Call.eff]
+      rw [h2]
+      exact ih rest
+
+/-! ## appends to one file (the compaction journal) -/
+
+theorem take_len_add {α : Type} (w r : List α) (k : Nat) : (w ++ r).take (w.length + k) = w ++ r.take k := by
+  induction w with
+  | nil => simp
+  | cons a w ih => simp only [List.cons_append, List.length_cons]; rw [show w.length + 1 + k = (w.length + k) + 1 by omega, List.take_succ_cons, ih]
+
+/-- all of `ws` appended to `name`, the last one possibly torn: the file holds its former content
+plus a prefix of the concatenation; its synced length does not change. -/
+theorem writes_cut (name : N) (ws : List Bytes) : ∀ {p : List (Op N)}, Cut (ws.map (Op.write name)) p →
+    ∃ k, ∀ (d : Dir N) (f : File), d name = some f →
+      run d p name = some { f with data := f.data ++ ws.flatten.take k } := by
+  induction ws with
+  | nil =>
+    intro p hc
+    have : p = [] := cut_nil (by simpa using hc)
+    subst this
+    exact ⟨0, fun d f h => by simp [run_nil, h]⟩
+  | cons w ws ih =>
+    intro p hc
+    simp only [List.map_cons] at hc
+    cases hc with
+    | stop _ => exact ⟨0, fun d f h => by simp [run_nil, h]⟩
+    | tear _ _ k _ =>
+      refine ⟨min k w.length, fun d f h => ?_⟩
+      simp only [run, List.foldl_cons, List.foldl_nil, step, h, upd_same, List.flatten_cons]
+      rw [List.take_append_of_le_length (Nat.min_le_right _ _)]
+      congr 3
+      rw [List.take_eq_take_iff]; simp [Nat.min_comm]
+    | next _ hc' =>
+      obtain ⟨k, hk⟩ := ih hc'
+      refine ⟨w.length + k, fun d f h => ?_⟩
+      rw [run_cons]
+      have h1 : step d (.write name w) name = some { f with data := f.data ++ w } := by
+        simp [step, h]
+      rw [hk _ _ h1]
+      simp only [List.flatten_cons, take_len_add, List.append_assoc]
+
+
 end Cascette.Proofs.SaveProtocols
